@@ -41,7 +41,11 @@ def vec_case(draw, ndim=(1, 4), nmin=1, nvdim=None, full_valid=False, bc_ok=True
 def mapping_of(case, dims):
     """component label -> axis name through the drawn permutation (k == ndim)"""
     labels = case["labels"]
-    return {labels[c]: dims[case["perm"][c]] for c in range(len(labels))}
+    items = [(labels[c], dims[case["perm"][c]]) for c in range(len(labels))]
+    # the dict may list the labels in any order
+    import numpy as _np
+    _np.random.default_rng(case["seed"]).shuffle(items)
+    return dict(items)
 
 
 def poly_eval(coef, u):
